@@ -197,38 +197,65 @@ theorem report_of_good (s : SDs) (h : Good s) : report s = truth s.data := by
   rcases h1 with h1 | h1 <;> rcases h2 with h2 | h2 <;> rcases h3 with h3 | h3 <;>
     simp [h1, h2, h3]
 
-theorem build_good : ∀ (h : Hist) (s : SDs), build .fixed h = some s → Good s := by
+theorem store_replace_good (ds : Option SDs) (data : List Val) :
+    ∀ s, storeFeature .fixed true ds data = some s → Good s := by
+  intro s hs
+  unfold storeFeature at hs
+  split at hs
+  · simp at hs
+  · injection hs with hs
+    subst hs
+    exact (write_exact none (by intro s h; cases h) data).1.good
+
+/-- the precondition on input files: summaries stored in a file that dclab did not write are
+absent or true.  Everything dclab stores itself needs no assumption, and a feature that is
+re-written (replace mode) or exported is trusted whatever it was before. -/
+def Trusted : Hist → Prop
+  | .write _ => True
+  | .foreign s => Good s
+  | .rewrite _ _ => True
+  | .append h _ => Trusted h
+  | .strip h _ _ _ => Trusted h
+  | .copy h => Trusted h
+  | .exported _ _ => True
+
+theorem build_good : ∀ (h : Hist), Trusted h → ∀ (s : SDs), build .fixed h = some s → Good s := by
   intro h
   induction h with
   | write chunks =>
-    intro s hs
+    intro _ s hs
     exact appends_from_good chunks none (by intro s h; cases h) s hs
-  | rewrite h data ih =>
-    intro s hs
-    exact store_good true _ ih data s hs
+  | foreign s0 =>
+    intro ht s hs
+    simp only [build, Option.some.injEq] at hs
+    subst hs
+    exact ht
+  | rewrite h data _ =>
+    intro _ s hs
+    exact store_replace_good _ data s hs
   | append h chunks ih =>
-    intro s hs
-    exact appends_from_good chunks _ ih s hs
+    intro ht s hs
+    exact appends_from_good chunks _ (ih ht) s hs
   | strip h a b c ih =>
-    intro s hs
+    intro ht s hs
     simp only [build, Option.map_eq_some_iff] at hs
     obtain ⟨s0, h0, rfl⟩ := hs
-    obtain ⟨h1, h2, h3⟩ := ih s0 h0
+    obtain ⟨h1, h2, h3⟩ := ih ht s0 h0
     refine ⟨?_, ?_, ?_⟩
     · cases a <;> simp [strip, h1]
     · cases b <;> simp [strip, h2]
     · cases c <;> simp [strip, h3]
   | copy h ih =>
-    intro s hs
+    intro ht s hs
     simp only [build, Option.map_eq_some_iff] at hs
     obtain ⟨s0, h0, rfl⟩ := hs
-    obtain ⟨h1, h2, h3⟩ := ih s0 h0
+    obtain ⟨h1, h2, h3⟩ := ih ht s0 h0
     refine ⟨Or.inr ?_, Or.inr ?_, Or.inr ?_⟩
     · rcases h1 with h | h <;> simp [copyDs, h]
     · rcases h2 with h | h <;> simp [copyDs, h]
     · rcases h3 with h | h <;> simp [copyDs, h]
-  | exported h mask ih =>
-    intro s hs
+  | exported h mask _ =>
+    intro _ s hs
     simp only [build] at hs
     split at hs
     · cases hs
